@@ -1654,3 +1654,95 @@ Theorem C02_bridge_class_file_annotations_example : exists bs aux d cs cattrs mv
   end.
 Proof. exact X12.BridgeFile5.class_file_example5. Qed.
 Print Assumptions C02_bridge_class_file_annotations_example.
+
+(* ================================================================================================ *)
+(* Round 6, ninth layer — type annotations at all five locations and SourceDebugExtension
+   (coq/X12/BridgeTypeAnn.v, BridgeFile6.v): the fragment now names every attribute kind of C02's decoded class. *)
+From FB Require X12.BridgeTypeAnn X12.BridgeFile6.
+
+(* TARGET_INFO: whatever target C02's decoder accepts (inside or outside Code), C01's reader reads through the table-driven
+   target format of ANY location (tbl, extra) under tgt_ok — C01's own tag test for that location, and the field layout
+   its table gives the tag is the layout C02's decoder parsed (both decidable on the decoder's answer) *)
+Theorem C02_bridge_target_info : forall impl dec rs tbl extra ic s tg r t,
+  p_target ic s = Some (tg, r) -> X12.BridgeTypeAnn.tgt_ok impl tbl extra tg = true ->
+  C01.Fmt.rd_fmt impl dec rs (C01.ClassFile.target_fmt tbl extra) (s ++ t) = Ok (X12.BridgeTypeAnn.target_val tg, r ++ t).
+Proof. exact X12.BridgeTypeAnn.target_read. Qed.
+Print Assumptions C02_bridge_target_info.
+
+(* RuntimeVisibleTypeAnnotations / RuntimeInvisibleTypeAnnotations: at class / field / method level, and at a location
+   whose attributes are leaf attributes (inside Code, record component), for any selector that maps the two names to
+   type_annotations_fmt (target_fmt tbl extra); tas_ok = tgt_ok for every target and the nesting bound on the pairs *)
+Theorem C02_bridge_type_annotations : forall impl dec cs sel tbl extra,
+  X12.BridgePool.sdec dec s_RVTAnn = C01.Formats.a_RuntimeVisibleTypeAnnotations ->
+  X12.BridgePool.sdec dec s_RITAnn = C01.Formats.a_RuntimeInvisibleTypeAnnotations ->
+  (forall len, sel C01.Formats.a_RuntimeVisibleTypeAnnotations len = C01.ClassFile.type_annotations_fmt (C01.ClassFile.target_fmt tbl extra)) ->
+  (forall len, sel C01.Formats.a_RuntimeInvisibleTypeAnnotations len = C01.ClassFile.type_annotations_fmt (C01.ClassFile.target_fmt tbl extra)) ->
+  (forall l s vis la r t, (l = AtClass \/ l = AtField \/ l = AtMethod) -> X12.BridgeTypeAnn.tas_ok impl tbl extra la = true ->
+     p_attr l (cslots cs 1) s = Some (ALeaf (ATypeAnnotations vis la), r) ->
+     C01.Fmt.rd_fmt impl dec (C01.ClassFile.acc (X12.BridgePool.rpool dec cs)) (C01.Fmt.FAttr sel) (s ++ t)
+     = Ok (X12.BridgeTypeAnn.v_TypeAnnotations dec vis la, r ++ t)) /\
+  (forall l s vis la r t, X12.BridgeTypeAnn.tas_ok impl tbl extra la = true ->
+     p_attr0 l (cslots cs 1) s = Some (ATypeAnnotations vis la, r) ->
+     C01.Fmt.rd_fmt impl dec (C01.ClassFile.acc (X12.BridgePool.rpool dec cs)) (C01.Fmt.FAttr sel) (s ++ t)
+     = Ok (X12.BridgeTypeAnn.v_TypeAnnotations dec vis la, r ++ t)).
+Proof.
+  intros impl dec cs sel tbl extra N1 N2 S1 S2. split.
+  - intros l s vis la r t Hl Ha H. exact (X12.BridgeTypeAnn.attr_TypeAnnotations impl dec cs l sel tbl extra s vis la r t N1 N2 Hl S1 S2 Ha H).
+  - intros l s vis la r t Ha H. exact (X12.BridgeTypeAnn.attr_TypeAnnotations0 impl dec cs l sel tbl extra s vis la r t N1 N2 S1 S2 Ha H).
+Qed.
+Print Assumptions C02_bridge_type_annotations.
+
+(* SourceDebugExtension: C02 keeps the bytes, C01 decodes them; under sde_ok (the reader's decoder accepts the bytes) C01
+   reads the decoded string *)
+Theorem C02_bridge_source_debug_extension : forall impl dec cs s x r t,
+  X12.BridgePool.sdec dec s_SourceDebugExtension = C01.Formats.a_SourceDebugExtension -> X12.BridgeFile6.sde_ok dec x = true ->
+  p_attr AtClass (cslots cs 1) s = Some (ASourceDebugExtension x, r) ->
+  C01.Fmt.rd_fmt impl dec (C01.ClassFile.acc (X12.BridgePool.rpool dec cs)) (C01.Fmt.FAttr C01.ClassFile.class_sel) (s ++ t)
+  = Ok (X12.BridgeFile6.v_SDE dec x, r ++ t).
+Proof. exact X12.BridgeFile6.attr_SDE. Qed.
+Print Assumptions C02_bridge_source_debug_extension.
+
+(* THE WHOLE FILE, fragment 6 (dclass_frag6 impl dec) = fragment 5 + type annotations at class / field / method / record
+   component level and inside Code (each under C01's per-location target condition) + SourceDebugExtension (sde_ok) *)
+Theorem C02_bridge_class_file_all_kinds : forall impl dec t bs aux d,
+  cclass_ok t = true -> write_class_aux t = WOK (bs, aux) ->
+  C01.Attr.header_ok C01.Tables.magic (Z.to_N (k_minor t)) (Z.to_N (k_major t)) = true ->
+  X12.BridgeClass.pool_utf8_ok dec (a_pool aux) = true -> X12.BridgeFile6.names_ok6 dec = true ->
+  facts_of t aux = Some d -> X12.BridgeFile6.dclass_frag6 impl dec d = true ->
+  exists cs cattrs mvals,
+    rev (p_inner (a_pool aux)) = map mk cs /\ agrees (a_pool aux) (cslots cs 1) /\
+    Forall2 (X12.BridgeFile6.crel6 dec cs) (d_attrs d) cattrs /\
+    Forall2 (X12.BridgeFile3.member_rel dec 2%N (X12.BridgeFile6.mrel6 dec)) (d_methods d) mvals /\
+    C01.ClassFile.read_class impl dec bs
+    = C01.ClassFile.build_class impl (X12.BridgePool.rpool dec cs) (Z.to_N (k_minor t)) (Z.to_N (k_major t))
+        (X12.BridgeClass.head_val dec t)
+        (C01.Fmt.VList cattrs)
+        (C01.Fmt.VList (map (X12.BridgeFile.member_val dec 1%N (X12.BridgeFile6.fattr_val6 dec)) (d_fields d)))
+        (C01.Fmt.VList mvals).
+Proof. exact X12.BridgeFile6.class_file_read6. Qed.
+Print Assumptions C02_bridge_class_file_all_kinds.
+
+(* non-vacuity: the class of the previous example with SourceDebugExtension and type annotations at all five locations
+   (class: supertype; field: empty target; method: formal parameter and return type; record component: empty target;
+   Code: an offset target on a label, a local-variable table target, a catch target), each with a type path and a pair:
+   inside fragment 6, outside fragment 5, 13 class attributes; C01's read_class on the written bytes, computed, succeeds
+   and its description holds exactly the translated class-level type annotation *)
+Theorem C02_bridge_class_file_all_kinds_example : exists bs aux d cs cattrs mvals cd,
+  write_class_aux X12.BridgeFile6.ex_file6 = WOK (bs, aux) /\ cclass_ok X12.BridgeFile6.ex_file6 = true /\
+  facts_of X12.BridgeFile6.ex_file6 aux = Some d /\
+  X12.BridgeFile6.in_fragment6 true C01.Mutf8.mutf8_dec X12.BridgeFile6.ex_file6 aux = true /\
+  X12.BridgeFile5.in_fragment5 C01.Mutf8.mutf8_dec X12.BridgeFile6.ex_file6 aux = false /\
+  Forall2 (X12.BridgeFile6.crel6 C01.Mutf8.mutf8_dec cs) (d_attrs d) cattrs /\ length cattrs = 13%nat /\
+  Forall2 (X12.BridgeFile3.member_rel C01.Mutf8.mutf8_dec 2%N (X12.BridgeFile6.mrel6 C01.Mutf8.mutf8_dec)) (d_methods d) mvals /\
+  C01.ClassFile.read_class true C01.Mutf8.mutf8_dec bs
+  = C01.ClassFile.build_class true (X12.BridgePool.rpool C01.Mutf8.mutf8_dec cs) 0%N 61%N
+      (X12.BridgeClass.head_val C01.Mutf8.mutf8_dec X12.BridgeFile6.ex_file6)
+      (C01.Fmt.VList cattrs)
+      (C01.Fmt.VList (map (X12.BridgeFile.member_val C01.Mutf8.mutf8_dec 1%N (X12.BridgeFile6.fattr_val6 C01.Mutf8.mutf8_dec)) (d_fields d)))
+      (C01.Fmt.VList mvals) /\
+  C01.ClassFile.read_class true C01.Mutf8.mutf8_dec bs = Ok cd /\
+  In (C01.Formats.a_RuntimeVisibleTypeAnnotations,
+      C01.Fmt.VList [X12.BridgeTypeAnn.ta_val C01.Mutf8.mutf8_dec (X12.BridgeFile6.ex_ta (TSupertype 16%N 65535))])
+     (C01.ClassFile.cd_slots cd).
+Proof. exact X12.BridgeFile6.class_file_example6. Qed.
+Print Assumptions C02_bridge_class_file_all_kinds_example.
